@@ -37,6 +37,9 @@ use event_store::EventStore;
 
 mod lmdb;
 pub use lmdb::IndexStats;
+
+#[cfg(feature = "verif")]
+pub mod verif;
 use lmdb::Lmdb;
 
 pub use heed;
@@ -84,6 +87,8 @@ impl Store {
 
         // Create the directory if it doesn't exist, ignoring errors
         let _ = fs::create_dir(&dir);
+        #[cfg(feature = "verif")]
+        crate::verif::point("new:after_create_dir");
 
         let mut events_path = dir.clone();
         events_path.push("event.map");
@@ -93,9 +98,15 @@ impl Store {
 
         // Create the lmdb subdir if it doesn't exist, ignoring errors
         let _ = fs::create_dir(&indexes_path);
+        #[cfg(feature = "verif")]
+        crate::verif::point("new:after_create_lmdb_dir");
 
         let events = EventStore::new(&events_path)?;
+        #[cfg(feature = "verif")]
+        crate::verif::point("new:after_event_store");
         let indexes = Lmdb::new(&indexes_path, &extra_table_names)?;
+        #[cfg(feature = "verif")]
+        crate::verif::point("new:after_lmdb");
 
         Ok(Store {
             events,
@@ -103,6 +114,18 @@ impl Store {
             dir,
             extra_table_names,
         })
+    }
+
+    /// Close the store, really closing the LMDB environment (dropping a `Store` leaves the
+    /// environment open in this process). Verification builds only.
+    #[cfg(feature = "verif")]
+    pub fn verif_close(self) -> Result<(), Error> {
+        let Store {
+            events, indexes, ..
+        } = self;
+        indexes.close()?;
+        drop(events);
+        Ok(())
     }
 
     /// Get directory where this store resides
@@ -285,12 +308,19 @@ impl Store {
     pub fn store_event(&self, event: &Event) -> Result<u64, Error> {
         // TBD: should we validate the event?
 
+        #[cfg(feature = "verif")]
+        let _writer_scope = crate::verif::writer_scope();
+
         let mut txn = self.indexes.write_txn()?;
+        #[cfg(feature = "verif")]
+        crate::verif::point("store:txn_open");
 
         // Return Duplicate if it already exists
         if self.indexes.get_offset_by_id(&txn, event.id())?.is_some() {
             return Err(InnerError::Duplicate.into());
         }
+        #[cfg(feature = "verif")]
+        crate::verif::point("store:after_dup_check");
 
         // Handle deleted events
         {
@@ -331,6 +361,9 @@ impl Store {
                 }
             }
         }
+
+        #[cfg(feature = "verif")]
+        crate::verif::point("store:after_deleted_check");
 
         // Pre-remove replaceable events being replaced
         {
@@ -377,26 +410,51 @@ impl Store {
             }
         }
 
+        #[cfg(feature = "verif")]
+        crate::verif::point("store:after_preremove");
+
         // Store the event
         let offset = self.events.store_event(event)? as u64;
+        #[cfg(feature = "verif")]
+        crate::verif::point("store:after_append");
+        #[cfg(feature = "verif")]
+        if crate::verif::fail("store:before_index") {
+            return Err(crate::verif::injected("store:before_index"));
+        }
 
         // Index the event
         if !event.kind().is_ephemeral() {
             self.indexes.index(&mut txn, event, offset)?;
         }
+        #[cfg(feature = "verif")]
+        crate::verif::point("store:after_index");
 
         // Handle deletion events
         if event.kind() == 5.into() {
             self.handle_deletion_event(&mut txn, event)?;
         }
+        #[cfg(feature = "verif")]
+        crate::verif::point("store:before_commit");
+        #[cfg(feature = "verif")]
+        if crate::verif::fail("store:before_commit") {
+            return Err(crate::verif::injected("store:before_commit"));
+        }
 
         txn.commit()?;
+        #[cfg(feature = "verif")]
+        crate::verif::point("store:after_commit");
 
         Ok(offset)
     }
 
     fn handle_deletion_event(&self, txn: &mut RwTxn<'_>, event: &Event) -> Result<(), Error> {
         for mut tag in event.tags()?.iter() {
+            #[cfg(feature = "verif")]
+            crate::verif::point("del:tag");
+            #[cfg(feature = "verif")]
+            if crate::verif::fail("del:tag") {
+                return Err(crate::verif::injected("del:tag"));
+            }
             if let Some(tagname) = tag.next() {
                 if tagname == b"e" {
                     if let Some(id_hex) = tag.next() {
@@ -914,9 +972,21 @@ impl Store {
 
     /// This removes an event without marking it as having been deleted by another event
     pub fn remove_event(&self, id: Id) -> Result<(), Error> {
+        #[cfg(feature = "verif")]
+        let _writer_scope = crate::verif::writer_scope();
         let mut txn = self.indexes.write_txn()?;
+        #[cfg(feature = "verif")]
+        crate::verif::point("remove:txn_open");
         self.remove_by_id(&mut txn, id)?;
+        #[cfg(feature = "verif")]
+        crate::verif::point("remove:before_commit");
+        #[cfg(feature = "verif")]
+        if crate::verif::fail("remove:before_commit") {
+            return Err(crate::verif::injected("remove:before_commit"));
+        }
         txn.commit()?;
+        #[cfg(feature = "verif")]
+        crate::verif::point("remove:after_commit");
         Ok(())
     }
 
@@ -1012,8 +1082,12 @@ impl Store {
         let filter = OwnedFilter::new(&[], &[event.pubkey()], &[], &tags, None, None, None)?;
         let (authored_events, _redacted) =
             self.find_events(&filter, true, 0, 0, |_| ScreenResult::Match)?;
+        #[cfg(feature = "verif")]
+        crate::verif::point("vanish:after_query1");
         for event in authored_events.iter() {
             self.remove_event(event.id())?;
+            #[cfg(feature = "verif")]
+            crate::verif::point("vanish:after_remove1");
         }
 
         // delete giftwraps that p-tag this pubkey
@@ -1021,8 +1095,12 @@ impl Store {
         let filter = OwnedFilter::new(&[], &[], &[Kind::from_u16(1059)], &tags, None, None, None)?;
         let (giftwrap_events, _redacted) =
             self.find_events(&filter, true, 0, 0, |_| ScreenResult::Match)?;
+        #[cfg(feature = "verif")]
+        crate::verif::point("vanish:after_query2");
         for event in giftwrap_events.iter() {
             self.remove_event(event.id())?;
+            #[cfg(feature = "verif")]
+            crate::verif::point("vanish:after_remove2");
         }
 
         Ok(())
